@@ -44,14 +44,15 @@ def _gauss(x, y, x0, y0, sx, sy, th):
     return np.exp(-0.5 * ((xp / sx) ** 2 + (yp / sy) ** 2)) / (2 * np.pi * sx * sy)
 
 
-def make_epsf_array(fwhm, osamp, ratio=1.0, theta=0.0, half_fwhm=3.0):
-    """Oversampled image of a unit-flux Gaussian (per *detector* pixel units), odd size, centred."""
+def make_epsf_array(fwhm, osamp, ratio=1.0, theta=0.0, half_fwhm=3.0, even=(False, False)):
+    """Oversampled image of a unit-flux Gaussian (per *detector* pixel units), centred on the array centre
+    ((n - 1) / 2, between two samples for an even size); sizes odd or even per axis (y, x)."""
     osy, osx = osamp
-    hx = int(np.ceil(half_fwhm * fwhm * osx))
-    hy = int(np.ceil(half_fwhm * fwhm * osy))
-    jj, ii = np.mgrid[-hy:hy + 1, -hx:hx + 1]
+    nx = 2 * int(np.ceil(half_fwhm * fwhm * osx)) + (0 if even[1] else 1)
+    ny = 2 * int(np.ceil(half_fwhm * fwhm * osy)) + (0 if even[0] else 1)
+    jj, ii = np.mgrid[:ny, :nx]
     s = fwhm * FWHM2SIG
-    return _gauss(ii / osx, jj / osy, 0.0, 0.0, s, s * ratio, theta)
+    return _gauss((ii - (nx - 1) / 2.0) / osx, (jj - (ny - 1) / 2.0) / osy, 0.0, 0.0, s, s * ratio, theta)
 
 
 def build_model(rng, kind, fwhm, shape_hint=(80, 80)):
@@ -104,15 +105,20 @@ def build_model(rng, kind, fwhm, shape_hint=(80, 80)):
         m = P.MoffatPSF(alpha=alpha, beta=beta)
         info.update(alpha=alpha, beta=beta)
     elif kind == 'imagepsf':
-        os_ = [(1, 1), (2, 2), (3, 3), (2, 3), (4, 2)][int(rng.integers(0, 5))]
-        data = make_epsf_array(fwhm, os_, ratio=float(rng.uniform(0.8, 1.25)), theta=float(rng.uniform(0, 180)))
+        os_ = [(1, 1), (2, 2), (3, 3), (2, 3), (4, 2), (2, 4), (1, 3), (3, 1)][int(rng.integers(0, 8))]
+        even = (bool(rng.random() < 0.4), bool(rng.random() < 0.4))
+        data = make_epsf_array(fwhm, os_, ratio=float(rng.uniform(0.8, 1.25)), theta=float(rng.uniform(0, 180)),
+                               even=even)
+        info['even'] = list(even)
         oarg = os_[0] if os_[0] == os_[1] and rng.random() < 0.5 else os_
         m = P.ImagePSF(data, oversampling=oarg)
         ny, nx = data.shape
         info.update(oversampling=list(os_), support=max((nx - 1) / 2 / os_[1], (ny - 1) / 2 / os_[0]))
     elif kind == 'gridded':
         from astropy.nddata import NDData
-        os_ = [(1, 1), (2, 2), (3, 3), (2, 3)][int(rng.integers(0, 4))]
+        os_ = [(1, 1), (2, 2), (3, 3), (2, 3), (4, 2), (2, 4), (3, 1)][int(rng.integers(0, 7))]
+        even = (bool(rng.random() < 0.4), bool(rng.random() < 0.4))
+        info['even'] = list(even)
         ngx, ngy = int(rng.integers(2, 4)), int(rng.integers(2, 4))
         # grid covering part of the image only: some sources fall outside the grid (nearest-edge regime)
         xg = np.sort(rng.uniform(-5, shape_hint[1] + 5, ngx)).round(1)
@@ -122,7 +128,7 @@ def build_model(rng, kind, fwhm, shape_hint=(80, 80)):
             yg = np.sort(rng.uniform(-5, shape_hint[0] + 5, ngy)).round(1)
         pos = [(float(x), float(y)) for y in yg for x in xg]
         arrs = [make_epsf_array(fwhm * float(rng.uniform(0.9, 1.1)), os_, ratio=float(rng.uniform(0.85, 1.2)),
-                                theta=float(rng.uniform(0, 180)), half_fwhm=3.3) for _ in pos]
+                                theta=float(rng.uniform(0, 180)), half_fwhm=3.3, even=even) for _ in pos]
         # all arrays must have one shape: crop to the smallest
         ny = min(a.shape[0] for a in arrs)
         nx = min(a.shape[1] for a in arrs)
